@@ -62,6 +62,16 @@ def asNode? : Nat → Json → Option Node
         (← (asArr? body).bind (mapM? (asNode? fuel))))
     | [.str "call", name, pos, kw] =>
       pure (.call (← asStr? name) (← (asArr? pos).bind (mapM? asExpr?)) (← (asArr? kw).bind (mapM? asKw?)))
+    | [.str "for", v, n, body] =>
+      pure (.forRange (← asStr? v) (← asNat? n) (← (asArr? body).bind (mapM? (asNode? fuel))))
+    | [.str "ifeq", v, k, body] =>
+      pure (.ifEq (← asStr? v) (← asNat? k) (← (asArr? body).bind (mapM? (asNode? fuel))))
+    | [.str "included", body] => pure (.included (← (asArr? body).bind (mapM? (asNode? fuel))))
+    | [.str "isolated", as, body] =>
+      pure (.isolated (← (asArr? as).bind (mapM? asKw?)) (← (asArr? body).bind (mapM? (asNode? fuel))))
+    | [.str "break"] => pure .brk
+    | [.str "continue"] => pure .cont
+    | [.str "fail"] => pure .fail
     | [.str "dumpList", n] => pure (.dumpList (← asStr? n))
     | [.str "dumpDict", n] => pure (.dumpDict (← asStr? n))
     | _ => none
@@ -73,15 +83,27 @@ def asGlobals? (j : Json) : Option NS := do
     | [k, v] => pure ((← asStr? k), Obj.val (.str (← asStr? v)))
     | _ => none) xs
 
-/-- `["mrender", limit, [[name, value]…], [node…]]` -/
+def errName : Err → String
+  | .contextDepth => "ContextDepthError"
+  | .failed => "FilterArgumentError"
+  | .strayInterrupt => "LiquidSyntaxError"
+
+def runRender (limit : Nat) (mode : Mode) (gl : NS) (nodes : List Node) : Json :=
+  match renderTemplate limit mode gl nodes with
+  | .ok s => Json.mkObj [("ok", jstr s)]
+  | .error e => Json.mkObj [("err", jstr (errName e))]
+
+/-- `["mrender", limit, [[name, value]…], [node…]]` (strict) or `[…, "lax"]` -/
 def handleRender (args : List Json) : Json :=
   match args with
   | [limit, gl, nodes] =>
     match asNat? limit, asGlobals? gl, (asArr? nodes).bind (mapM? (asNode? 200)) with
+    | some limit, some gl, some nodes => runRender limit .strict gl nodes
+    | _, _, _ => jerr "bad-args"
+  | [limit, gl, nodes, mode] =>
+    match asNat? limit, asGlobals? gl, (asArr? nodes).bind (mapM? (asNode? 200)) with
     | some limit, some gl, some nodes =>
-      match renderTemplate limit gl nodes with
-      | .ok s => Json.mkObj [("ok", jstr s)]
-      | .error .contextDepth => Json.mkObj [("err", jstr "ContextDepthError")]
+      runRender limit (if asStr? mode == some "lax" then .lax else .strict) gl nodes
     | _, _, _ => jerr "bad-args"
   | _ => jerr "bad-args"
 
